@@ -20,7 +20,7 @@ ANCHORS = ["raggedarray/__init__.py::RaggedArray.sum", "raggedarray/__init__.py:
            "raggedarray/indexablearray.py::IndexableArray.get_column_values", "raggedshape.py::ViewBase.unravel_multi_index"]
 OPS = ["sum0", "np.sum0", "mean0", "np.mean0", "col_counts", "getcol"]
 FLOOR_TAGS = ["op:" + o for o in OPS] + ["kind:b", "kind:i", "kind:u", "kind:f", "e-first", "e-last", "e-mid", "e-consec", "e-none", "very-different-lengths",
-                                         "recv:fresh", "recv:lazyrows", "recv:lazycols+2", "recv:lazycols-1", "recv:lazychain", "getcol:last", "getcol:0"]
+                                         "recv:fresh", "recv:lazyrows", "recv:lazycols+2", "recv:lazycols-1", "recv:lazychain", "getcol:last", "getcol:0", "axis:numpy-integer", "v:nonfinite"]
 FLOOR_MONITORS = ["c09:compare"]
 N_RANDOM = {"quick": 30000, "thorough": 300000}
 
@@ -52,10 +52,14 @@ def run(case):
     desc = "%s%s of %s rows %s [%s receiver]" % (op, "(%d)" % j if op == "getcol" else "", dt, short([r.tolist() for r in rows], 200), recv)
     if op in ("sum0", "np.sum0"):
         exp = np.array([(int(np.sum(np.array(c, dtype=bool))) if dt.kind == "b" else (sum(int(x) for x in c) if dt.kind in "iu" else float(np.sum(np.array(c, dtype=np.float64))))) for c in cols])
-        a = attempt(lambda: ra.sum(axis=0) if op == "sum0" else (np.sum(ra, axis=0) if j % 2 == 0 else np.sum(ra, 0)))
+        ax = axis_of(case)
+        a = attempt(lambda: ra.sum(axis=ax) if op == "sum0" else (np.sum(ra, axis=ax) if j % 2 == 0 else np.sum(ra, ax)))
     elif op in ("mean0", "np.mean0"):
         exp = np.array([float(np.mean(np.array(c, dtype=np.float64))) for c in cols])
-        a = attempt(lambda: ra.mean(axis=0) if op == "mean0" else np.mean(ra, axis=0))
+        ax = axis_of(case)
+        with np.errstate(all="ignore"):
+            exp = np.array([float(np.mean(np.array(c, dtype=np.float64))) for c in cols])
+        a = attempt(lambda: ra.mean(axis=ax) if op == "mean0" else (np.mean(ra, axis=ax) if j % 2 == 0 else np.mean(ra, ax)))
     elif op == "col_counts":
         exp = np.array([len(c) for c in cols])
         a = attempt(lambda: ra.col_counts())
@@ -63,6 +67,10 @@ def run(case):
         exp = np.array(cols[j], dtype=dt)
         tags.append("getcol:last" if j == M - 1 else ("getcol:0" if j == 0 else "getcol:mid"))
         a = attempt(lambda: ra.get_column_values(j))
+    if case.get("axisform", "int") != "int" and op not in ("col_counts", "getcol"):
+        tags.append("axis:numpy-integer")
+    if case.get("vclass") == "nonfinite":
+        tags.append("v:nonfinite")
     CTX.tick("c09:compare")
     if not a.ok:
         return violated("%s raised %s: %s" % (desc, type(a.exc).__name__, a.exc), tags, got=repr(a))
@@ -85,6 +93,8 @@ def run(case):
         ex = [sum(int(x) for x in c) for c in cols]
         mag = [sum(abs(int(x)) for x in c) for c in cols]
         ok = all(abs(float(gv) - float(e)) <= 1e-9 * max(1.0, float(m)) for gv, e, m in zip(g.tolist(), ex, mag))
+    elif case.get("vclass") == "nonfinite":
+        ok = np.array_equal(g.astype(np.float64), exp.astype(np.float64), equal_nan=True)
     else:
         ok = bool(np.all(g.astype(np.float64) == exp.astype(np.float64))) and all(float(x) == float(y) for x, y in zip(g.tolist(), exp.tolist()))
     if not ok:
@@ -94,6 +104,12 @@ def run(case):
     return held(tags, n >= 2 and len(set(lens)) >= 2)
 
 
+def axis_of(case):
+    """axis 0 as a python int or as a numpy integer of some type (what indexing an np.arange or a shape tuple hands out)"""
+    f = case.get("axisform", "int")
+    return 0 if f == "int" else np.dtype(f).type(0)
+
+
 # ----------------------------------------------------------------------------- workloads
 
 def _vals(rng, dtype, n, vclass):
@@ -101,6 +117,8 @@ def _vals(rng, dtype, n, vclass):
     if vclass == "bigfloat" and dt.kind == "f":
         top = 3e4 if dt.itemsize == 2 else (2.5e38 if dt.itemsize == 4 else 1e300)
         return [rng.choice([top, top / 2, top / 4, 1.0]) for _ in range(n)]
+    if vclass == "nonfinite" and dt.kind == "f":
+        return gen.values(rng, dtype, n, "nonfinite").tolist()
     if vclass == "huge":
         if dt.kind in "iu" and dt.itemsize == 8:
             ii = np.iinfo(dt)
@@ -121,9 +139,12 @@ def gen_case(rng, lens, dtype, op=None, recv="fresh", vclass="small", j=None):
         j = rng.randint(0, max(0, M - 1))
     if vclass == "huge" and (op not in ("sum0", "np.sum0") or np.dtype(dtype).name not in ("int64", "uint64")):
         vclass = "medium"
-    if vclass == "bigfloat" and np.dtype(dtype).kind != "f":
+    if vclass in ("bigfloat", "nonfinite") and np.dtype(dtype).kind != "f":
         vclass = "small"
-    return mk_case(lens, dtype, _vals(rng, dtype, sum(lens), vclass), op, j, recv, vclass)
+    c = mk_case(lens, dtype, _vals(rng, dtype, sum(lens), vclass), op, j, recv, vclass)
+    if rng.random() < 0.3:
+        c["axisform"] = rng.choice(["int64", "intp", "uint8", "int8", "int32"])
+    return c
 
 
 def directed():
@@ -137,6 +158,7 @@ def directed():
                 yield gen_case(rng, lens, dtype, op, vclass="medium")
                 yield gen_case(rng, lens, dtype, op, vclass="huge")
                 yield gen_case(rng, lens, dtype, op, vclass="bigfloat")
+                yield gen_case(rng, lens, dtype, op, vclass="nonfinite")
             for j in range(max(lens)):
                 yield gen_case(rng, lens, dtype, "getcol", j=j)
         for recv in c02.RECVS[1:]:
@@ -155,7 +177,7 @@ def random_case(rng, tier):
         lens = [1, 0, 2]
     dtype = rng.choice(gen.DT_ALL)
     recv = rng.choice(c02.RECVS) if rng.random() < 0.4 else "fresh"
-    return gen_case(rng, lens, dtype, None, recv, rng.choice(["small", "medium", "huge", "bigfloat"]))
+    return gen_case(rng, lens, dtype, None, recv, rng.choice(["small", "medium", "huge", "bigfloat", "nonfinite"]))
 
 
 def classify(case, res):
